@@ -20,6 +20,10 @@ func main() {
 		r = codec.C01(c)
 	case "C08":
 		r = codec.C08(c)
+	case "C10":
+		r = codec.C10(c)
+	case "C12":
+		r = codec.C12(c)
 	case "GOLDEN":
 		if err := codec.MakeGolden(c, c.Out); err != nil {
 			fmt.Fprintln(os.Stderr, err)
